@@ -187,6 +187,9 @@ def rng(t, cx, ty=None, depth=0):
         if name in ("len", "capacity", "count"):
             cx.used.add("A-mem")
             return (0, MEM)
+        if e is not None and e.get("dty") in TYMAX:
+            # the declared result type of an opaque call bounds its value
+            return refine(t, (TYMIN.get(e["dty"], 0), TYMAX[e["dty"]]), cx)
         return refine(t, FULL, cx)
     if k == "proj":
         # item of a Range iterator:  next#N as Some.0
@@ -198,6 +201,20 @@ def rng(t, cx, ty=None, depth=0):
                 r = range_of_iter(it, cx, depth)
                 if r:
                     return r
+        if isinstance(base, tuple) and base[0] == "call" and "Enumerate" in (base[2] or "") and (base[2] or "").endswith("Iterator>::next") \
+                and [x for x in t[2] if isinstance(x, str)][-2:] == ["0", "0"]:
+            # index component of `for (i, x) in <collection>.iter().enumerate()`: next() as Some.0.0
+            e = cx.calls.get(base[1])
+            if e is not None and e["args"]:
+                it = e["args"][0]
+                if isinstance(it, tuple) and it[0] == "ref" and cx.p.st is not None:
+                    from . import absint
+                    it = absint.Interp(None).read(cx.p.st, it[1])
+                n = enumerate_bound(it, cx) if isinstance(it, tuple) and it[0] == "call" and (it[2] or "").endswith("enumerate") else None
+                if n is not None:
+                    return (0, n - 1)
+                cx.used.add("A-mem")
+                return (0, MEM)
         if isinstance(base, tuple) and base[0] == "iter_item" and t[2] == ("0",) and isinstance(base[2], tuple) and base[2][0] == "call" \
                 and (base[2][2] or "").endswith("enumerate"):
             n = enumerate_bound(base[2], cx)
